@@ -175,6 +175,7 @@ const rule = "tree = Parse(G1/G2/G3 input) x 3 soft-break behaviours x IgnoreRaw
 func plan() harness.Plan {
 		return harness.Plan{Prop: "C10", Suppress: findings.Suppressor("C10"), Checks: []harness.Check{
 		{Name: "render", Quick: 30000, Thorough: 400000, Gen: genCase(gen.Doc()), Prop: prop, Rule: rule},
+		{Name: "render_html", Quick: 15000, Thorough: 200000, Gen: genCase(gen.HTMLSoup()), Prop: prop, Rule: "raw-HTML-heavy inputs (comments, CDATA, upper/mixed-case tag names of equal lengths, raw-text elements): " + rule},
 		{Name: "render_lines", Quick: 15000, Thorough: 200000, Gen: genCase(gen.Lines()), Prop: prop, Rule: "G2 only: " + rule},
 	}}
 }
